@@ -49,6 +49,12 @@ theorem compressBody_transparent (c : Codecs) (k : Kind) (level : Int) (h : Resp
         · rfl
         · simp only [decodeResp, kindOfName_name, hce', kindOfName_nil, Body.bytes, hb]
           simp [c.roundtrip]
+      | raw b =>
+        simp only
+        split
+        · rfl
+        · simp only [decodeResp, kindOfName_name, hce', kindOfName_nil, Body.bytes, hb]
+          simp [c.roundtrip]
 
 /-- C22: for any body (buffered or streamed), level and Accept-Encoding, the CompressHandlerLevel response decodes,
     per the Content-Encoding it declares, to exactly what the wrapped handler's response decodes to … -/
@@ -87,6 +93,11 @@ theorem compressBody_ce (c : Codecs) (k : Kind) (level : Int) (h : Resp) :
     · cases hb : h.body with
       | stream reads => exact Or.inr ⟨rfl, hce', rfl⟩
       | buf b =>
+        simp only
+        split
+        · exact Or.inl rfl
+        · exact Or.inr ⟨rfl, hce', rfl⟩
+      | raw b =>
         simp only
         split
         · exact Or.inl rfl
@@ -200,6 +211,15 @@ theorem compress_idempotent (c : Codecs) (ol : Int) (ae : Bytes) (h : Resp) :
               simp [compressBody, h1, h2, hbd, h3]
             rw [e1]
             simp [compressBody, hkn]
+        | raw b =>
+          by_cases h3 : b.length < Gen.minCompressLen
+          · have e1 : compressBody c k ol h = h := by simp [compressBody, h1, h2, hbd, h3]
+            rw [e1, e1]
+          · have e1 : compressBody c k ol h =
+                { h with body := .buf (c.enc k ol b), ce := k.name, vary := addVary h.vary } := by
+              simp [compressBody, h1, h2, hbd, h3]
+            rw [e1]
+            simp [compressBody, hkn]
       · have e1 : compressBody c k ol h = h := by simp [compressBody, h1, h2]
         rw [e1, e1]
     · have e1 : compressBody c k ol h = h := by simp [compressBody, h1]
@@ -230,6 +250,38 @@ theorem vary_when_compressed (c : Codecs) (bl ol : Int) (ae : Bytes) (h : Resp) 
     · exact key _ bl hout
     · exact key _ ol hout
     · exact absurd (hout ▸ rfl) hne
+
+/-! ### buffered bodies: the compressed bytes are what EVERY body accessor yields afterwards -/
+
+/-- regenerated fact: each of gzipBody/deflateBody/brotliBody/zstdBody clears resp.bodyRaw (itself or in a Response
+    method it calls) when it swaps in the compressed buffer — bodyBytes() prefers bodyRaw -/
+theorem compress_clears_body_raw :
+    Gen.compressBodyClearsRaw.length = 4 ∧ Gen.compressBodyClearsRaw.all (·.2) = true := by decide
+
+/-- whenever a body compressor sets the Content-Encoding of a non-stream response, the response no longer has a raw body:
+    the body is the buffer holding `enc` of the former `bodyBytes()`, whichever API the handler had used (SetBodyRaw
+    included) -/
+theorem compressed_body_replaces_raw (c : Codecs) (k : Kind) (level : Int) (h : Resp)
+    (hchg : (compressBody c k level h).ce ≠ h.ce) (hns : ∀ reads, h.body ≠ .stream reads) :
+    (compressBody c k level h).body = .buf (c.enc k level h.body.bytes) ∧
+    ∀ b, (compressBody c k level h).body ≠ .raw b := by
+  have key : (compressBody c k level h).body = .buf (c.enc k level h.body.bytes) := by
+    unfold compressBody at hchg ⊢
+    by_cases h1 : (!h.ce.isEmpty) = true
+    · simp [h1] at hchg
+    · by_cases h2 : (!isCompressibleContentType h.ct) = true
+      · simp [h1, h2] at hchg
+      · cases hb : h.body with
+        | stream reads => exact absurd hb (hns reads)
+        | buf b =>
+          by_cases h3 : b.length < Gen.minCompressLen
+          · simp [h1, h2, hb, h3] at hchg
+          · simp [h1, h2, hb, h3, Body.bytes]
+        | raw b =>
+          by_cases h3 : b.length < Gen.minCompressLen
+          · simp [h1, h2, hb, h3] at hchg
+          · simp [h1, h2, hb, h3, Body.bytes]
+  exact ⟨key, fun b hb => by rw [key] at hb; cases hb⟩
 
 /-! ### streamed bodies: nothing a stream delivers is lost on the way to the compressor -/
 
@@ -320,6 +372,7 @@ def toyCodecs : Codecs where
 def big : Bytes := List.replicate 200 97
 def htmlResp (b : Body) : Resp := ⟨[], ofString "text/html", [], 0, b⟩
 
+example : (compressHandlerLevel toyCodecs 6 (ofString "gzip") (htmlResp (.raw big))).body = .buf (1 :: big) := by decide +kernel
 example : copyBuffer [([1], .none), ([], .none), ([2, 3], .eof)] = ([1, 2, 3], false) := by decide
 example : hasAcceptEncoding (ofString "deflate, gzip") Gen.strGzip = true := by decide +kernel
 example : hasAcceptEncoding (ofString "gzip;q=0") Gen.strGzip = false := by decide +kernel
